@@ -1,9 +1,12 @@
 (* C01 — Write/read round trip is exact, ordered, complete for every configuration.
    Statements only.  C01_roundtrip (at the end) is the whole-file statement on the models: it
    composes the block-level round trip with the writer tree invariant W (WriterTree, WriterStore)
-   and the reader refinement R (ReaderRefine).  Hypothesis of C01_roundtrip that is not part of the
-   property: the writer run finishes (progress of the writer model on sorted input is validated by
-   the correspondence, not proved); the empty file is covered by the correspondence only. *)
+   and the reader refinement R (ReaderRefine); C01_roundtrip_total adds progress (WriterProgress):
+   on such an input the writer model never panics or fails, so no hypothesis about the run remains.
+   What remains hypothetical is physical: the file and every block buffer are shorter than 2^64
+   bytes, the input has fewer than 2^32 - 1 entries (a block footer counts its restart offsets in a
+   u32), the codec never fails and decompress inverts it.  The empty file is covered by the
+   correspondence only. *)
 From Grenad.model Require Import Base Block Trailer Spec Format.
 From Grenad.proofs Require Import BlockProofs FormatProofs TrailerProofs.
 
@@ -85,3 +88,26 @@ Example C01_roundtrip_example :
   | _ => false
   end = true.
 Proof. vm_compute. reflexivity. Qed.
+
+(* ================= the same without assuming that the writer finishes =================
+   every insert and the final flush return on a strictly ascending input: the order assertion of
+   every block insert (data and index) holds because every level of the tree is strictly ascending,
+   the u32 footer count because no block holds more entries than the input *)
+From Grenad.proofs Require Import BlockProofs WriterProgress.
+
+Theorem C01_roundtrip_total : forall compress decompress c,
+  (forall b z, compress (wc_codec c) (wc_level c) b = Done z -> decompress (wc_codec c) z = Done b) ->
+  (forall b, exists z, compress (wc_codec c) (wc_level c) b = Done z) ->
+  forall es, wc_levels c < 256 -> 1 <= wc_interval c -> wc_codec c <= 5 ->
+  es <> [] -> sorted_strictb (map fst es) = true -> entries_ok es -> len es + 1 <= U32_MAX ->
+  exists s lg m,
+    w_run_gen vsink vs_wr vs_fl vs_count compress c vs_empty es = (len es, Done (s, lg, m)) /\
+    (len (vs_bytes s) < 2^64 -> mem_ok lg ->
+     open_meta (vs_bytes s) = Done m /\ m_count m = len es /\ m_codec m = wc_codec c /\
+     let ld := load_block decompress (vs_bytes s) (m_codec m) in
+     (exists st rs, run_ops ld (m_root m) (m_levels m) cs_fresh (repeat ONext (S (length es))) = Done (st, rs) /\
+                    rs = map Some es ++ [None]) /\
+     (exists st rs, run_ops ld (m_root m) (m_levels m) cs_fresh (repeat OPrev (S (length es))) = Done (st, rs) /\
+                    rs = map Some (rev es) ++ [None])).
+Proof. exact roundtrip_total. Qed.
+Print Assumptions C01_roundtrip_total.
